@@ -142,6 +142,7 @@ func rulesC10(w *World, r *Report) {
 	w.dateEncoderForms(r, "C10.R1 compact form only when exact", "C10.R2 octet windows fit the value", "C10.R4 zero time is null", false, "")
 	w.ruleDecoderForms(r, "C10.R2 reader accepts both date forms", "date")
 	w.rulePairOctets(r, "C10.R2 encoder/decoder octet agreement", "date")
+	w.ruleWrapperForwards(r, "C10.R2 the date read wrapper forwards the decoder", "date")
 	w.ruleDateUnits(r, "C10.R2 encoder getter and decoder constructor agree on the unit")
 	w.ruleDateArith(r, "C10.R3 no overflow on the declared domain")
 	w.ruleDateStructPath(r, "C10.R5 time.Time recognised inside the struct path")
